@@ -25,9 +25,11 @@ PROPS = {
         verus=[dict(unit='name_wire', which='all')],
         kani=[],
         cex={
-            'name_wire.parse_compressed_name': [('name_wire', 'cex_parse_compressed_total')],
-            'name_wire.skip_compressed_name': [('name_wire', 'cex_skip_len_le_buf')],
+            'name_wire.skip_compressed_name': [('name_wire', 'cex_skip_len_le_buf'), ('name_wire', 'bnd_skip_matches_ref')],
         },
+        fallback_kani=[dict(harness='bnd_skip_matches_ref', module='name_wire',
+                            bound='buffers <= 258 octets whose first chunk has <= 6 labels',
+                            what='skip_compressed agrees with an executable RFC 1035 first-chunk reference on acceptance and length')],
         unverified=['body of unsafe fn new_boxed_name (allocation, copy_nonoverlapping, fat-pointer cast): its documented '
                     'safety precondition is proved at every extracted call site, the body itself is trusted',
                     'the one-line public wrappers Name::try_from_compressed / skip_compressed / validate_* in src/name/mod.rs '
@@ -52,3 +54,14 @@ PROPS = {
         assumptions=['slice lengths are <= isize::MAX'],
     ),
 }
+
+
+# ---- entries contributed per unit family (vq/props_d/*.py) -----------------
+import importlib, pkgutil
+from . import props_d as _pd
+for _m in sorted(pkgutil.iter_modules(_pd.__path__), key=lambda m: m.name):
+    _mod = importlib.import_module('vq.props_d.' + _m.name)
+    for _k, _v in _mod.PROPS_PART.items():
+        if _k in PROPS:
+            raise RuntimeError('duplicate PROPS entry ' + _k)
+        PROPS[_k] = _v
